@@ -30,7 +30,7 @@ type Parser struct {
 	placeholder Atom
 	args        []Term
 
-	buf tokenRingBuffer
+	buf tokenBuffer
 }
 
 // ParsedVariable is a set of information regarding a variable in a parsed term.
@@ -121,6 +121,8 @@ func (p *Parser) current() Token {
 
 // Term parses a term followed by a full stop.
 func (p *Parser) Term() (Term, error) {
+	p.buf.discard()
+
 	t, err := p.term(1201)
 	switch err {
 	case nil:
@@ -955,38 +957,43 @@ func doubleQuotedUnescape(s string) string {
 	}
 }
 
-type tokenRingBuffer struct {
-	buf        [4]Token
-	start, end int
+// tokenBuffer keeps the tokens of the term being read so that the parser can back up over any number of them.
+type tokenBuffer struct {
+	toks []Token
+	pos  int
 }
 
-func (b *tokenRingBuffer) put(t Token) {
-	b.buf[b.end] = t
-	b.end++
-	b.end %= len(b.buf)
+func (b *tokenBuffer) put(t Token) {
+	b.toks = append(b.toks, t)
 }
 
-func (b *tokenRingBuffer) get() Token {
-	t := b.buf[b.start]
-	b.start++
-	b.start %= len(b.buf)
+func (b *tokenBuffer) get() Token {
+	t := b.toks[b.pos]
+	b.pos++
 	return t
 }
 
-func (b *tokenRingBuffer) current() Token {
-	return b.buf[b.start]
-}
-
-func (b *tokenRingBuffer) empty() bool {
-	return b.start == b.end
-}
-
-func (b *tokenRingBuffer) backup() {
-	b.start--
-	b.start %= len(b.buf)
-	if b.start < 0 {
-		b.start += len(b.buf)
+func (b *tokenBuffer) current() Token {
+	if b.empty() {
+		return Token{}
 	}
+	return b.toks[b.pos]
+}
+
+func (b *tokenBuffer) empty() bool {
+	return b.pos == len(b.toks)
+}
+
+func (b *tokenBuffer) backup() {
+	if b.pos > 0 {
+		b.pos--
+	}
+}
+
+// discard forgets the tokens that have been consumed.
+func (b *tokenBuffer) discard() {
+	b.toks = b.toks[:copy(b.toks, b.toks[b.pos:])]
+	b.pos = 0
 }
 
 type unexpectedTokenError struct {
